@@ -11,8 +11,8 @@ rm -f $E/verif/repo-link
 for item in "$@"; do
   set -- $item; id=$1; shift
   (cd $E/verif && bin/seedcheck.py seeded/$id "$@" > work/seed_$id.log 2>&1)
-  cp $E/verif/seeded/$id/meta.json /verif/seeded/$id/meta.json 2>/dev/null
-  cp $E/verif/work/seed_$id.log /verif/work/ev_$id.log 2>/dev/null
+  [ -n "${VERIF_NOMETA:-}" ] || cp $E/verif/seeded/$id/meta.json /verif/seeded/$id/meta.json 2>/dev/null
+  cp $E/verif/work/seed_$id.log /verif/work/ev${OUTTAG:-}_$id.log 2>/dev/null
 done
 echo done > /verif/work/ev_$N.done
 rm -rf $E
